@@ -194,6 +194,9 @@ func buildC04(c *CheckCtx) {
 	c.addFunctionUnits(func(con *Contract) bool { return hasProp(con, "C04") })
 	c.addGram(gramWant{Shape: true, Leaf: true})
 	c.addScan()
+	c.runBoundedHarness("internal/scanner", "c04_tokens_test.go", "TestVCBoundedC04", []string{"VC_BOUND=" + c.boundN()},
+		"real lexer on prefix·w for 22 mode-setting prefixes and every w over a 30-byte alphabet with |w| <= "+c.boundN()+", versions 7.2 and 7.4: every token and free-floating token has Value == source[start:end], offsets in range, increasing and without overlap, correct 1-based lines (LF, CRLF, lone CR), and full coverage when no lexer error was reported",
+		"token-no-position", "token-range", "token-text", "token-overlap", "token-gap", "token-line")
 	c.Explain = "Proved per run: setTokenPosition gives a token the offsets ts..te and the lines GetLine yields for ts and te-1; addFreeFloatingToken appends exactly one fresh token with the given id, Value = data[ps:pe] and that position; NewLines.Append keeps the line-start table strictly increasing and GetLine returns the 1-based line of an offset against it; ungetCnt/ungetStr shrink p and te together and never below ts; pools hand out distinct cells (C18); for every grammar action a leaf node's Value is the Value of a token stored in that node (concatenations in token order). NOT proved yet: the scanner machine's own obligations (Value == data[ts:te] at exit, tiling without gaps, the new_line action recording every line start, classification of trivia) - they need the E-SCAN pass."
 	c.assume("the generated scanner machine sets tkn.Value = data[ts:te] and calls the helpers with ps == ts, pe == te (not verified yet)")
 }
